@@ -143,21 +143,33 @@ fn hex_val(b: &[u8]) -> Option<u64> {
 /// (task, instance, channel, stream offset of bytes[pos]).
 pub fn attribute(bytes: &[u8], pos: usize) -> Option<(u32, u32, u32, i64)> {
     let n = REC as usize;
-    let mut j = pos;
-    while j + n <= bytes.len() && j < pos + 2 * n {
+    let parse = |j: usize| -> Option<(u32, u32, u32, u64)> {
+        if j + n > bytes.len() {
+            return None;
+        }
         let r = &bytes[j..j + n];
         if r[0] == b't' && r[7] == b'i' && r[12] == b'c' && r[14] == b'@' && r[23] == b'\n' {
-            if let (Some(t), Some(i), Some(c), Some(k)) = (
-                hex_val(&r[1..7]),
-                hex_val(&r[8..12]),
-                hex_val(&r[13..14]),
-                hex_val(&r[15..23]),
-            ) {
-                let off = (k * REC) as i64 - (j - pos) as i64;
-                return Some((t as u32, i as u32, c as u32, off));
-            }
+            Some((
+                hex_val(&r[1..7])? as u32,
+                hex_val(&r[8..12])? as u32,
+                hex_val(&r[13..14])? as u32,
+                hex_val(&r[15..23])?,
+            ))
+        } else {
+            None
         }
-        j += 1;
+    };
+    // a record that contains bytes[pos]
+    for j in (pos.saturating_sub(n - 1)..=pos).rev() {
+        if let Some((t, i, c, k)) = parse(j) {
+            return Some((t, i, c, (k * REC) as i64 + (pos - j) as i64));
+        }
+    }
+    // the first record after it
+    for j in pos + 1..pos + 2 * n {
+        if let Some((t, i, c, k)) = parse(j) {
+            return Some((t, i, c, (k * REC) as i64 - (j - pos) as i64));
+        }
     }
     None
 }
@@ -190,6 +202,8 @@ pub fn explain_mismatch(t: u32, i: u32, c: u32, expected: &[u8], got: &[u8]) -> 
                 ("other-instance", format!("bytes written by instance {i2} of the same task (channel {c2}, its offset {off})"))
             } else if c2 != c {
                 ("other-channel", format!("bytes of channel {c2} of the same instance (its offset {off})"))
+            } else if off == common as i64 {
+                ("garbage", "bytes that look like the right record but differ from what was sent".to_string())
             } else if off > common as i64 {
                 ("gap", format!("bytes of the same stream from offset {off}: {} bytes were skipped", off - common as i64))
             } else {
